@@ -17,6 +17,7 @@ CLASSES = {
 SCHED = {s.name: s for s in M.SCHEDULES}
 _CTX = None
 _IMAGES = None
+SECOND_RUN = [False]    # C01: a second instance reads the same stream
 
 
 def registry(ctx):
@@ -36,7 +37,8 @@ def _work(task):
     img = _IMAGES[key]
     try:
         model = M.StreamModel(_CTX, fmt_cls)
-        outs = model.run(img, SCHED[sched_name])
+        outs = model.run(img, SCHED[sched_name],
+                         second_run=SECOND_RUN[0])
     except AnalysisError as e:
         return task, {'failure': 'analysis: %s' % e}
     except Exception as e:    # pragma: no cover - reported as undecided
